@@ -52,6 +52,9 @@ type c13Case struct {
 	// Racer (file back-end): removals by another interface that start at the
 	// moment the server makes the first file-system step of committing QUIT.
 	Racer []c13Other
+	// MidLogin: what another interface does to the mailbox between the accepted USER
+	// and the PASS that follows it ("after login" means after PASS)
+	MidLogin []c13Other
 }
 
 func (k *c13Case) Describe() []string {
@@ -61,6 +64,9 @@ func (k *c13Case) Describe() []string {
 	}
 	for i, s := range k.Script {
 		l = append(l, fmt.Sprintf("cmd %d pause=%v %q", i, s.Pause, clipStr(s.Line, 80)+s.Term))
+	}
+	for i, o := range k.MidLogin {
+		l = append(l, fmt.Sprintf("between USER and PASS %d: %s size=%d ref=%d", i, o.Kind, o.Size, o.Ref))
 	}
 	for i, o := range k.Racer {
 		l = append(l, fmt.Sprintf("racer %d: when QUIT starts to commit, remove from session mailbox ref=%d", i, o.Ref))
@@ -298,6 +304,11 @@ func genC13(w *simrt.Choices, tier string, avoid map[string]bool) Case {
 			k.Racer = append(k.Racer, c13Other{Kind: "remove", Ref: w.Choose(12)})
 		}
 	}
+	if w.Choose(4) == 0 {
+		for i, n := 0, 1+w.Choose(2); i < n; i++ {
+			k.MidLogin = append(k.MidLogin, c13Other{Kind: []string{"add", "remove"}[w.Choose(2)], Size: c13Sizes[w.Choose(3)], Seed: uint64(w.Choose(1 << 16)), Ref: w.Choose(12)})
+		}
+	}
 	// avoid switches of known findings (applied after every choice was drawn, so
 	// the rest of the case is the same with and without the switch)
 	if avoid["stall-unread"] && k.End == "stall-unread" {
@@ -354,6 +365,7 @@ type c13Run struct {
 	open         bool // connection established and not yet ended by the client
 	other        *simrt.Task
 	racer        *simrt.Task
+	midDone      bool
 	quitSent     bool // the client has sent QUIT in TRANSACTION state
 	commitBegun  bool // ... and the server has made a file-system step since
 	extChanges   int // mutations of the session mailbox by the other task so far
@@ -780,6 +792,25 @@ func (r *c13Run) runClient() {
 			simrt.Sleep(cmd.Pause)
 		}
 		verb, args := popVerb(cmd.Line)
+		if r.state == "auth" && verb == "PASS" && r.userKnown && !r.midDone {
+			// the mailbox changes between USER and PASS
+			r.midDone = true
+			for _, o := range k.MidLogin {
+				switch o.Kind {
+				case "add":
+					r.addMsg("between USER and PASS", r.user, o.Size, o.Seed)
+				case "remove":
+					if l := r.all[r.user]; len(l) > 0 {
+						e := l[o.Ref%len(l)]
+						if err := r.st.RemoveMessage(r.user, e.ID); err == nil {
+							r.removedByOther[r.key(r.user, e.ID)] = true
+							c.Logf("between USER and PASS: removed %q id %s", r.user, e.ID)
+						}
+					}
+				}
+				c.Stat("probe.mailbox_changed_between_USER_and_PASS", 1)
+			}
+		}
 		if r.state == "auth" && (verb == "PASS" || verb == "APOP") {
 			r.bracketLogin(verb, args)
 		}
